@@ -88,6 +88,11 @@ fn fast_bitmap_transfer(buffer: &mut Vec<u32>, width: usize, bitmap: BitmapEvent
         return Err(Error::RdpError(RdpError::new(RdpErrorKind::InvalidSize, "Invalid destination rectangle")))
     }
 
+    // the rows of the rectangle are taken from the image : it must have at least as many columns and rows
+    if bitmap_dest_right - bitmap_dest_left + 1 > bitmap_width || bitmap_dest_bottom - bitmap_dest_top + 1 > bitmap.height as usize {
+        return Err(Error::RdpError(RdpError::new(RdpErrorKind::InvalidSize, "Image is smaller than its destination rectangle")))
+    }
+
     let data = bitmap.decompress()?;
 
     // Use some unsafe method to faster
